@@ -6,22 +6,25 @@ ASSUMPTIONS = [
     "(i) configuration cube {omit_none, omit_default, serialize_by_alias in unset/F/T} x Config.dialect x aliases x all_refs x "
     "dialect x with_definitions per type family: the selectors are solver variables but the class family and the schema are built "
     "untraced from realised selectors (types cannot be symbolic), so the solver ENUMERATES this finite cube exhaustively",
-    "(ii) sequences of 1..3 JSONSchemaBuilder.build calls over a type pool chosen by selectors; same remark",
+    "(ii) sequences of 1..3 JSONSchemaBuilder.build calls over a type pool chosen by selectors; same remark; every result is also "
+    "compared with the schema of the same type built in an interpreter of its own (nothing else ever built there), after the "
+    "whole pool has been built once in the checking process: a build that leaks state into later builds is reported",
     "(iii) genuinely symbolic: JSONSchema.from_dict(doc).to_dict() == doc on schema-shaped documents with symbolic keyword "
     "presence and symbolic const/default (incl. None) -- the model class's generated code and its hand-written pre/post "
     "serialize hooks run traced; and build_json_schema with a symbolic ref_prefix string (len <= 4)",
     "metaschema validity by the real jsonschema package's bundled Draft 2020-12 metaschema",
 ]
-KINDS = ["defaults", "nested", "selfref", "generic", "ntfield", "ntfwd", "deser_only", "ser_fn", "ann_generic", "plain", "list_int", "dict_str_date", "opt_union", "tuple", "nt", "color", "any"]
+KINDS = ["defaults", "nested", "selfref", "generic", "ntfield", "ntfwd", "deser_only", "ser_fn", "ann_meta", "nonefield", "ann_generic", "plain", "list_int", "dict_str_date", "opt_union", "tuple", "nt", "color", "any"]
 
 
 def harnesses(tier, seed):
     hs = []
     s = Schema("x", "int", "")
-    for k in (KINDS if tier != "quick" else ["defaults", "nested", "selfref", "ntfield", "ntfwd", "deser_only", "ser_fn", "ann_generic"]):
+    for k in (KINDS if tier != "quick" else ["defaults", "nested", "selfref", "ntfield", "ntfwd", "deser_only", "ser_fn", "ann_meta", "ann_generic"]):
         kw = "kind=%r" % k
         hs.append(gen.custom_harness("C20", "c20", Schema("cube_" + k, "int", ""), "cube", kw, kw))
-    pool = ("nested", "generic", "plain", "list_int", "nt", "defaults") if tier != "quick" else ("nested", "generic", "plain", "nt")
+    pool = (("nested", "generic", "plain", "list_int", "nt", "defaults", "nonefield") if tier != "quick"
+            else ("nested", "generic", "plain", "nt", "nonefield"))
     kw = "pool=%r" % (pool,)
     hs.append(gen.custom_harness("C20", "c20", Schema("seq", "int", ""), "seq", kw, kw))
     kw2 = "pool=%r" % (("selfref", "plain"),)
